@@ -540,6 +540,20 @@ class ExprMixin:
       if ca is not None:
         return self._eval_in_module(recv.module, ca)
       raise ContractMisfit('class %s has no attribute %s' % (recv.name, attr))
+    if isinstance(recv, V) and isinstance(recv.sort, S.Opt) and self.heap_binding(recv.sort.inner) is not None:
+      recv = self.coerce(recv, recv.sort.inner)     # attribute of an Optional object: obligation `is not None`
+    if isinstance(recv, V) and self.heap_binding(recv.sort) is not None:
+      (rp, cn), hb = self.heap_binding(recv.sort)
+      if attr in hb[2]:
+        return self.heap_read(recv, attr)
+      from engine import source as _src
+      hmod = _src.load(self.repo, rp)
+      q = hmod.resolve_method(cn, attr)
+      if q:
+        if 'property' in _src.decorators(hmod.defs[q]):
+          return self.call_func(FuncRef(hmod, q, bound_self=recv), [], {}, node)
+        return FuncRef(hmod, q, bound_self=recv)
+      raise ContractMisfit('heap class %s has no field/method %s' % (cn, attr))
     if isinstance(recv, V):
       s = recv.sort
       am = self.theory.attr_models.get((s.name, attr))
@@ -685,6 +699,9 @@ class ExprMixin:
       return
     if isinstance(target, ast.Attribute):
       recv = self.eval(target.value)
+      if isinstance(recv, V) and self.heap_binding(recv.sort) is not None:
+        self.heap_write(recv, target.attr, val)
+        return
       if isinstance(recv, Obj):
         decl = self.obj_field_sort(recv, target.attr)
         if decl is not None and not isinstance(val, Obj):
@@ -768,6 +785,10 @@ class ExprMixin:
         self.env[org[1]] = V(hs, hs.mk(z3.Store(hs.arr(holder.t), org[2], newval.t), hs.len(holder.t)),
                              origin=holder.origin)
         newval = V(newval.sort, newval.t, origin=org)
+      elif org is not None and org[0] == 'heapfield' and isinstance(newval, V):
+        # the local aliases a mutable field of a heap object: write through
+        self.heap_write(org[3], org[2], newval)
+        newval = V(newval.sort, newval.t, origin=org)
       elif org is not None and org[0] == 'item' and isinstance(newval, V):
         # `x = holder[k]` followed by an in-place mutation of x: the mutable value is shared with
         # the holder, so the update is written through to holder[k] (k as evaluated at the read)
@@ -785,6 +806,11 @@ class ExprMixin:
       return
     if isinstance(lval, ast.Attribute):
       recv = self.eval(lval.value)
+      if isinstance(recv, V) and isinstance(recv.sort, S.Opt) and self.heap_binding(recv.sort.inner) is not None:
+        recv = self.coerce(recv, recv.sort.inner)
+      if isinstance(recv, V) and self.heap_binding(recv.sort) is not None:
+        self.heap_write(recv, lval.attr, newval)
+        return
       if isinstance(recv, Obj):
         oldf = recv.fields.get(lval.attr)
         inner = oldf.origin if isinstance(oldf, V) else None
